@@ -81,7 +81,8 @@ TraceAdmin ==
                  [] d = "either" -> Chk("either", (e.status = "401" /\ Unchanged(e)) \/ ok))
           [] OTHER ->
                /\ Chk("norm_noeffect", d = "deny" => Unchanged(e))
-               /\ Chk("norm_status", d = "deny" => e.status \in {"401", "404"})
+               \* (on the shared listener a cross-mount spelling may reach the pull handler, which answers 405 to non-POST)
+               /\ Chk("norm_status", d = "deny" => e.status \in Refusals("http"))
   /\ l' = l + 1
 
 Next == TraceCompile \/ TracePull \/ TraceAdmin
